@@ -261,6 +261,20 @@ def _kl_tree(draw, names, depth):
     return [op, sub()]
 
 
+def _leading_minus(draw, tree, names):
+    """One formula in five starts with a unary minus and goes on with further terms: -a*b + f, -a - f, -(a + f)."""
+    k = draw(st.integers(0, 14))
+    if k > 2:
+        return tree
+    a = ["mul", gen.sym(draw(st.sampled_from(names))), gen.sym(draw(st.sampled_from(names)))] if draw(st.booleans()) \
+        else gen.sym(draw(st.sampled_from(names)))
+    if k == 0:
+        return ["add", ["neg", a], tree]
+    if k == 1:
+        return ["sub", ["neg", a], tree]
+    return ["neg", ["add", a, tree]]
+
+
 @st.composite
 def documents(draw):
     sp_names = draw(gen.species_names(1, 5))
@@ -299,7 +313,7 @@ def documents(draw):
             else:
                 locs[lid] = draw(gen.nice(0.1, 5))
         names = rx_species + gids + list(locs) + (rule_species if draw(st.booleans()) else []) + rule_params
-        tree = _kl_tree(draw, names, draw(st.integers(1, 3)))
+        tree = _leading_minus(draw, _kl_tree(draw, names, draw(st.integers(1, 3))), names)
         for lid in locs:                      # make sure each local parameter is actually used
             if lid not in ref.tree_symbols(tree):
                 tree = ["mul", tree, gen.sym(lid)]
@@ -332,7 +346,8 @@ def documents(draw):
     targets = list(draw(st.permutations(list(rule_species) + list(rule_params))))
     for tgt in targets:
         kind = draw(st.sampled_from(["assignment", "rate"])) if tgt in rule_species else "assignment"
-        rules.append({"kind": kind, "var": tgt, "tree": _kl_tree(draw, rhs_names, draw(st.integers(1, 2)))})
+        rules.append({"kind": kind, "var": tgt,
+                      "tree": _leading_minus(draw, _kl_tree(draw, rhs_names, draw(st.integers(1, 2))), rhs_names)})
     return {"species": species, "params": gparams, "reactions": reactions, "rules": rules}, collision, clash_class
 
 
